@@ -6,7 +6,7 @@ from ..events import Summaries, calls_in, fi_of_term, bind_call, call_arg_terms
 from ..flow import get_flow, show, strip_sites, subterms
 from ..guards import GuardGraph
 from ..model import AnalysisError, first_line, src_of
-from . import gates, select, meta, loops
+from . import gates, select, meta, loops, effects
 
 META = {
     "explanation": "decision table over the five inspect.Parameter kinds of the loop that builds the positional name table; T-order of the writes into the per-call mapping; T-identity of the stored values; per-contract selection (shape of the selecting comprehension, missing-name gate); introspection provenance on Contract/Snapshot",
@@ -328,6 +328,7 @@ def select_sites(run, model, rule="C05.select"):
 
 def run(run, model):
     run.do(pos_table, model)
+    run.do(effects.no_memo, model, "C05.no-memo")
     run.do(order_identity, model)
     run.do(defaults_rule, model)
     run.do(select.selector_rules, model, "C05.select")
